@@ -376,11 +376,20 @@ snarf_scale(const char *spec)
 				/* Gent's types */
 				const char *kp = spec + 7U;
 				r = SCALE_HIJRI_IA;
-				r += (echs_scale_t)((*kp == 'V' || *kp++ == 'I') * 2U);
-				r += (echs_scale_t)((*kp == 'V' || *kp++ == 'I') * 2U);
-				r += (echs_scale_t)((*kp == 'C'));
-				r += (echs_scale_t)((*kp == 'V') ? 2U : 0U);
-				r += (echs_scale_t)(*++kp == 'C');
+				if (*kp == 'V') {
+					/* type IV */
+					r += (echs_scale_t)6U;
+					kp++;
+				} else if (*kp == 'I') {
+					/* type II or III */
+					r += (echs_scale_t)2U;
+					if (*++kp == 'I') {
+						r += (echs_scale_t)2U;
+						kp++;
+					}
+				}
+				/* the epoch, only ever look at the name */
+				r += (echs_scale_t)(*kp == 'C');
 				break;
 			}
 			}
